@@ -534,11 +534,27 @@ Ltac rw_outs E1 E2 E3 :=
       match t with _ = ?d => replace (has_stop_llgr o) with d by (symmetry; exact E3) end
   end.
 
-Lemma inv_up : forall h fams gr ll,
-    inv h -> wf_event (HUp fams gr ll) = true -> inv (h_step h (HUp fams gr ll)).
+Lemma norm_gr_subset : forall fams gr, subset_b (fams_of_gr (norm_gr fams gr)) fams = true.
 Proof.
-  intros h fams gr ll Hinv Hwf. cbn [h_step]. destruct (h_sess h) as [s0|] eqn:Es; [exact Hinv|].
-  cbn [wf_event] in Hwf. apply andb_true_iff in Hwf. destruct Hwf as [Hwg Hwl].
+  intros fams [[[l rt] nb]|]; [|reflexivity]. unfold norm_gr.
+  match goal with |- context [filter ?p l] => destruct (filter p l) as [|x xs] eqn:E end; [reflexivity|].
+  cbn [fams_of_gr]. rewrite <- E. unfold subset_b. apply forallb_forall. intros f Hin. apply filter_In in Hin. tauto.
+Qed.
+
+Lemma norm_llgr_subset : forall fams ll, subset_b (fams_of_llgr (norm_llgr fams ll)) fams = true.
+Proof.
+  intros fams [l|]; [|reflexivity]. unfold norm_llgr.
+  match goal with |- context [filter ?p l] => destruct (filter p l) as [|x xs] eqn:E end; [reflexivity|].
+  cbn [fams_of_llgr]. rewrite <- E. unfold subset_b. apply forallb_forall. intros f Hin.
+  apply in_map_iff in Hin. destruct Hin as [e [He Hin]]. apply filter_In in Hin. subst f. tauto.
+Qed.
+
+Lemma inv_up : forall h fams gr0 ll0, inv h -> inv (h_step h (HUp fams gr0 ll0)).
+Proof.
+  intros h fams gr0 ll0 Hinv. cbn [h_step]. cbv zeta.
+  pose proof (norm_gr_subset fams gr0) as Hwg. pose proof (norm_llgr_subset fams ll0) as Hwl.
+  set (gr := norm_gr fams gr0) in *. set (ll := norm_llgr fams ll0) in *. clearbody gr ll.
+  destruct (h_sess h) as [s0|] eqn:Es; [exact Hinv|].
   open_inv h Hinv. subst S.
   change (match gr with Some (l, _, _) => l | None => [] end) with (fams_of_gr gr).
   (* the part of the invariant that does not depend on the phase *)
@@ -712,9 +728,9 @@ Proof.
   cbv zeta. apply down_core. exact Hinv.
 Qed.
 
-Lemma inv_step : forall h e, inv h -> wf_event e = true -> inv (h_step h e).
+Lemma inv_step : forall h e, inv h -> inv (h_step h e).
 Proof.
-  intros h e Hinv Hwf. destruct e as [fams gr ll|f id nl lc|f|r| | |f| |b].
+  intros h e Hinv. destruct e as [fams gr ll|f id nl lc|f|r| | |f| |b].
   - apply inv_up; assumption.
   - apply inv_announce; assumption.
   - apply inv_eor; assumption.
@@ -726,45 +742,63 @@ Proof.
   - apply inv_admin; assumption.
 Qed.
 
-Lemma inv_run : forall evs h, inv h -> Known_C10_7 evs = false -> inv (h_run h evs).
+Lemma inv_run : forall evs h, inv h -> inv (h_run h evs).
 Proof.
-  induction evs as [|e r IH]; intros h Hinv Hk; [exact Hinv|].
-  unfold Known_C10_7 in Hk. cbn [existsb] in Hk. apply orb_false_iff in Hk. destruct Hk as [He Hr].
-  apply negb_false_iff in He. unfold h_run. cbn [fold_left]. apply IH; [apply inv_step; assumption | exact Hr].
+  induction evs as [|e r IH]; intros h Hinv; [exact Hinv|].
+  unfold h_run. cbn [fold_left]. apply IH. apply inv_step. exact Hinv.
 Qed.
 
 (* ------------------------------------------------------------ the invariant, for all histories *)
 
-Lemma stale_ok_along_inv : forall evs h, inv h -> Known_C10_7 evs = false -> stale_ok_along h evs = true.
+Lemma stale_ok_along_inv : forall evs h, inv h -> stale_ok_along h evs = true.
 Proof.
-  induction evs as [|e r IH]; intros h Hinv Hk; [reflexivity|].
-  unfold Known_C10_7 in Hk. cbn [existsb] in Hk. apply orb_false_iff in Hk. destruct Hk as [He Hr].
-  apply negb_false_iff in He. cbn [stale_ok_along].
-  pose proof (inv_step h e Hinv He) as Hinv'. rewrite (inv_stale_ok _ Hinv'). cbn [andb]. apply IH; assumption.
+  induction evs as [|e r IH]; intros h Hinv; [reflexivity|]. cbn [stale_ok_along].
+  pose proof (inv_step h e Hinv) as Hinv'. rewrite (inv_stale_ok _ Hinv'). cbn [andb]. apply IH; assumption.
 Qed.
 
 (* Stale routes exist only while a restart timer or an LLGR timer is armed or an
    End-of-RIB is awaited on the re-established session: after every step of every
-   history outside the remaining known class C10-7. *)
-Theorem C10_stale_implies_timer_or_eor_outside_known :
+   history (sessions up with any negotiated GR / LLGR sets, announcements,
+   End-of-RIB markers, drops for every reason, failed connection attempts, timer
+   expiries, forced peer-down, admin-down in any order). *)
+Theorem C10_stale_implies_timer_or_eor :
   forall (evs : list hevent),
-    Known_C10_7 evs = false ->
     stale_ok_along h0 evs = true /\ stale_ok (h_run h0 evs) = true.
 Proof.
-  intros evs Hk. split.
-  - apply stale_ok_along_inv; [exact inv_h0 | exact Hk].
-  - apply inv_stale_ok. apply inv_run; [exact inv_h0 | exact Hk].
+  intros evs. split.
+  - apply stale_ok_along_inv. exact inv_h0.
+  - apply inv_stale_ok. apply inv_run. exact inv_h0.
 Qed.
 
-(* finding C10-7: GR negotiated for a family that is not a family of the session *)
-Definition w7 : list hevent :=
-  [HUp [V4; V6] (Some ([V4; V6], 120, true)) None; HAnnounce V6 0 false false; HDown RsTcp;
-   HUp [V4] (Some ([V4; V6], 120, true)) None; HDown RsRemoteHard].
-
-Theorem C10_stale_implies_timer_or_eor_refuted :
-  Known_C10_7 w7 = true /\ stale_ok (h_run h0 w7) = false
-  /\ h_rtimer (h_run h0 w7) = false /\ h_ltimers (h_run h0 w7) = [] /\ h_sess (h_run h0 w7) = None.
-Proof. vm_compute. repeat split; reflexivity. Qed.
+(* the phase / timer / route consistency behind it, as a usable corollary: in every
+   reachable state a session that is up has no timer armed and its own routes are
+   unmarked and in its families; the restart timer is armed exactly in phase
+   PeerRestarting; LLGR timers are armed only in phase LlgrStaling, for the
+   families still staling *)
+Theorem C10_phase_timer_consistency :
+  forall (evs : list hevent),
+    let h := h_run h0 evs in
+    (forall s, h_sess h = Some s ->
+        h_rtimer h = false /\ h_ltimers h = [] /\
+        forall r, In r (h_rib h) -> r_sess r = s_gen s ->
+                  r_stale r = false /\ r_llgr r = false /\ mem (r_fam r) (s_fams s) = true)
+    /\ (h_rtimer h = true <-> exists stale llgr, h_gr h = GPeerRestarting stale llgr)
+    /\ (forall f, mem f (h_ltimers h) = true -> exists rem, h_gr h = GLlgrStaling rem /\ mem f rem = true).
+Proof.
+  intros evs h. pose proof (inv_run evs h0 inv_h0) as [Hg Hp]. fold h in Hg, Hp. unfold pinv in Hp.
+  split; [|split].
+  - intros s Hs. destruct (gi_sess h Hg s Hs) as [_ [A [B [_ [_ C]]]]]. repeat split; try assumption; apply (C r H H0).
+  - destruct (h_gr h) as [|stale llgr|rem|p fl].
+    + destruct Hp as [A _]. split; [congruence | intros [x [y Hx]]; discriminate].
+    + destruct Hp as [_ [A _]]. split; [intros _; exists stale, llgr; reflexivity | intros _; exact A].
+    + destruct Hp as [_ [A _]]. split; [congruence | intros [x [y Hx]]; discriminate].
+    + destruct Hp as [A _]. split; [congruence | intros [x [y Hx]]; discriminate].
+  - intros f Hf. destruct (h_gr h) as [|stale llgr|rem|p fl].
+    + destruct Hp as [_ [A _]]. rewrite A in Hf. discriminate.
+    + destruct Hp as [_ [_ [A _]]]. rewrite A in Hf. discriminate.
+    + destruct Hp as [_ [_ [A _]]]. exists rem. split; [reflexivity | rewrite <- A; exact Hf].
+    + destruct Hp as [_ [A _]]. rewrite A in Hf. discriminate.
+Qed.
 
 (* ------------------------------------------------------------ one-step facts of the glue *)
 
@@ -827,18 +861,17 @@ Proof.
     apply in_drop_llgr_stale. split; [apply in_drop_stale; split; [assumption|]|]; rewrite ?Hs, ?Hl; apply andb_false_r.
 Qed.
 
-(* ... and on every history outside C10-7 the routes of the live session are unmarked, so
-   they survive: stated on reachable states *)
+(* ... and in every reachable state the routes of the live session are unmarked, so they
+   survive the purge *)
 Theorem C10_live_session_routes_survive_purge :
   forall (evs : list hevent) (e : hevent) (s : session) (r : route),
-    Known_C10_7 evs = false ->
     let h := h_run h0 evs in
     h_sess h = Some s -> In r (h_rib h) -> r_sess r = s_gen s ->
     (exists f, e = HEor f) ->
     In r (h_rib (h_step h e)).
 Proof.
-  intros evs e s r Hk h Hs Hin Hg He.
-  pose proof (inv_run evs h0 inv_h0 Hk) as [[_ Hsess] _]. fold h in Hsess.
+  intros evs e s r h Hs Hin Hg He.
+  pose proof (inv_run evs h0 inv_h0) as [[_ Hsess] _]. fold h in Hsess.
   destruct (Hsess s Hs) as [_ [_ [_ [_ [_ Hcur]]]]]. destruct (Hcur r Hin Hg) as [A [B _]].
   apply C10_fresh_routes_survive_purge; [left; exact He | assumption..].
 Qed.
@@ -925,18 +958,17 @@ Proof.
 Qed.
 
 (* (f) a hard reset, an admin shutdown, a non-Cease error (and a NOTIFICATION or hold-timer
-       expiry without the N bit) never enters helper mode and retains nothing: on every
-       reachable state outside C10-7 *)
-Theorem C10_non_gr_reasons_retain_nothing_outside_known :
+       expiry without the N bit) never enters helper mode and retains nothing, in every
+       reachable state *)
+Theorem C10_non_gr_reasons_retain_nothing :
   forall (evs : list hevent) (s : session) (rs : reason),
-    Known_C10_7 evs = false ->
     let h := h_run h0 evs in
     h_sess h = Some s -> not_eligible h s rs = true ->
     let h' := h_step h (HDown rs) in
     h_rib h' = [] /\ h_rtimer h' = false /\ h_ltimers h' = [] /\ h_sess h' = None /\ h_gr h' = h_gr h.
 Proof.
-  intros evs s rs Hk h Hs Hne h'.
-  pose proof (inv_run evs h0 inv_h0 Hk) as Hinv. fold h in Hinv.
+  intros evs s rs h Hs Hne h'.
+  pose proof (inv_run evs h0 inv_h0) as Hinv. fold h in Hinv.
   pose proof (inv_down h rs Hinv) as Hinv'. fold h' in Hinv'.
   (* nothing is negotiated as far as the disconnect handling is concerned *)
   assert (h_gr h' = h_gr h /\ h_sess h' = None) as [Hg' Hs'].
@@ -958,18 +990,6 @@ Proof.
     destruct (C q (or_introl eq_refl) (retained_no_session h' q Hs')) as [_ [[s0 [Hs0 _]] _]]. congruence.
 Qed.
 
-Theorem C10_non_gr_reasons_retain_nothing_refuted :
-  exists evs s rs,
-    Known_C10_7 evs = true /\
-    let h := h_run h0 evs in
-    h_sess h = Some s /\ not_eligible h s rs = true /\ h_rib (h_step h (HDown rs)) <> [].
-Proof.
-  exists [HUp [V4; V6] (Some ([V4; V6], 120, true)) None; HAnnounce V6 0 false false; HDown RsTcp;
-          HUp [V4] (Some ([V4; V6], 120, true)) None],
-         {| s_gen := 2; s_fams := [V4]; s_gr := Some ([V4; V6], 120, true); s_llgr := None |}, RsRemoteHard.
-  vm_compute. repeat split; try reflexivity. discriminate.
-Qed.
-
 (* ------------------------------------------------------------ non-vacuity *)
 Definition ex_gr_llgr : list hevent :=
   [HUp [V4; V6] (Some ([V4; V6], 120, false)) (Some [(V4, 3600); (V6, 3600)]);
@@ -977,8 +997,7 @@ Definition ex_gr_llgr : list hevent :=
 
 Example ex_restarting_with_timer :
   let h := h_run h0 ex_gr_llgr in
-  Known_C10_7 ex_gr_llgr = false
-  /\ is_peer_restarting (h_gr h) = true /\ h_rtimer h = true /\ length (h_rib h) = 3%nat
+  is_peer_restarting (h_gr h) = true /\ h_rtimer h = true /\ length (h_rib h) = 3%nat
   /\ h_rtimer (h_step h HFailedConnect) = true
   /\ start_llgr (snd (gr_step (h_gr h) GTimerExpired)) = Some [(V4, 3600); (V6, 3600)]
   /\ length (h_rib (h_step h HRestartTimer)) = 2%nat
@@ -988,8 +1007,7 @@ Proof. vm_compute. repeat split; reflexivity. Qed.
 Example ex_eor_purges_only_stale :
   let evs := ex_gr_llgr ++ [HUp [V4; V6] (Some ([V4; V6], 120, false)) None; HAnnounce V4 2 false true] in
   let h := h_run h0 evs in
-  Known_C10_7 evs = false
-  /\ h_gr h = GPeerReconnected [V4; V6] false /\ length (h_rib h) = 4%nat
+  h_gr h = GPeerReconnected [V4; V6] false /\ length (h_rib h) = 4%nat
   /\ map r_id (h_rib (h_step h (HEor V4))) = [0; 2] /\ map r_fam (h_rib (h_step h (HEor V4))) = [V6; V4]
   /\ stale_ok h = true /\ stale_ok (h_step h (HEor V4)) = true.
 Proof. vm_compute. repeat split; reflexivity. Qed.
@@ -997,7 +1015,7 @@ Proof. vm_compute. repeat split; reflexivity. Qed.
 Example ex_hard_reset_retains_nothing :
   let evs := [HUp [V4; V6] (Some ([V4], 120, true)) (Some [(V4, 3600)]); HAnnounce V4 0 false false; HAnnounce V6 1 false false] in
   let h := h_run h0 evs in
-  Known_C10_7 evs = false /\ length (h_rib h) = 2%nat
+  length (h_rib h) = 2%nat
   /\ (exists s, h_sess h = Some s /\ not_eligible h s RsRemoteHard = true /\ not_eligible h s RsTcp = false)
   /\ h_rib (h_step h (HDown RsRemoteHard)) = [] /\ length (h_rib (h_step h (HDown RsTcp))) = 1%nat.
 Proof. vm_compute. repeat split; try reflexivity. eexists. repeat split; reflexivity. Qed.
@@ -1006,11 +1024,21 @@ Example ex_gr_family_without_llgr_expires :
   let evs := [HUp [V4; V6] (Some ([V4; V6], 120, false)) (Some [(V4, 3600)]); HAnnounce V6 0 false false;
               HAnnounce V4 0 false false; HDown RsTcp; HRestartTimer] in
   let h := h_run h0 evs in
-  Known_C10_7 evs = false /\ h_gr h = GLlgrStaling [V4] /\ map r_fam (h_rib h) = [V4] /\ h_ltimers h = [V4].
+  h_gr h = GLlgrStaling [V4] /\ map r_fam (h_rib h) = [V4] /\ h_ltimers h = [V4].
 Proof. vm_compute. repeat split; reflexivity. Qed.
 
 Example ex_helper_entry :
   is_peer_restarting (fst (gr_step GIdle (GSessionDropped (Some ([V4], 120)) None))) = true
   /\ is_peer_restarting (fst (gr_step GIdle (GSessionDropped None (Some [(V4, 3600)])))) = true
   /\ is_peer_restarting (fst (gr_step GIdle (GSessionDropped None None))) = false.
+Proof. vm_compute. repeat split; reflexivity. Qed.
+
+(* finding C10-7 (repaired): GR negotiated for a family outside the session is dropped from
+   the negotiated set, the earlier session's stale routes of that family are purged when the
+   peer comes back, and a later hard reset leaves nothing *)
+Example ex_gr_family_outside_session :
+  let evs := [HUp [V4; V6] (Some ([V4; V6], 120, true)) None; HAnnounce V6 0 false false; HDown RsTcp;
+              HUp [V4] (Some ([V4; V6], 120, true)) None] in
+  let h := h_run h0 evs in
+  h_gr h = GPeerReconnected [V4] false /\ h_rib h = [] /\ h_rib (h_step h (HDown RsRemoteHard)) = [].
 Proof. vm_compute. repeat split; reflexivity. Qed.
